@@ -9,3 +9,11 @@ TRUSTED = []
 
 def units(tier):
     return sqlunits.units_for("C15") + handlers.units_for("C15")
+
+
+def extras(tier, seed):
+    from pyvc.bounded import run_bounded
+
+    return [
+        run_bounded('C15', 'c15_traversal.py', 'C15/bounded/reset-set+traversal', tier, seed),
+    ]
